@@ -686,6 +686,8 @@ def apply_mut(doc, m):
         if g == "longfield":
             return doc.replace(b"1", b"1" * 70000, 1)
         if g == "manylines":
+            if len(doc) > 20000:
+                return doc       # once is enough: 6000 duplicate YAML keys take 17 s on an idle machine (quadratic error list), minutes on a busy one
             lines = doc.split(b"\n")
             return doc + b"\n".join(lines[-2:-1] * 3000) + b"\n"
         return doc
@@ -799,9 +801,15 @@ def judge_run(ctx, case, res, rerun, what, insize):
             return "slow"
         if ctx._shrinking and not ctx.confirming:
             ctx.fail(case, "%s: hang candidate (8 s guard while shrinking)" % what, {"hang": True})
-        again = [rerun(LONG_GUARD) for _ in range(2)]
+        # the long guard grows with the machine's load: three sweeps at once on 16 cores stretch a 17 s run beyond two minutes
+        try:
+            scale = max(1.0, os.getloadavg()[0] / float(os.cpu_count() or 1))
+        except OSError:
+            scale = 1.0
+        long_guard = LONG_GUARD * min(scale, 6.0)
+        again = [rerun(long_guard) for _ in range(2)]
         if all(r.timed_out for r in again):
-            ctx.fail(case, "%s: does not terminate: one run beyond the guard, then two runs beyond %d s (input %d bytes; a normal run takes < 0.1 s)" % (what, LONG_GUARD, insize), {"hang": True})
+            ctx.fail(case, "%s: does not terminate: one run beyond the guard, then two runs beyond %d s (input %d bytes; a normal run takes < 0.1 s)" % (what, long_guard, insize), {"hang": True})
         ctx.label("slow-once")
         return "slow"
     if res.capped:
@@ -1093,7 +1101,7 @@ def build_prog(case):
     return p.encode("utf-8", "replace") if "\xff" not in p and "\xc3" not in p else p.encode("latin-1", "replace")
 
 
-_LOOPY = re.compile(rb"\b(while|do|func|subr|call)\b|for\s*\([^)]*;")
+_LOOPY = re.compile(rb"\b(while|do|func|subr|call)\b|for\s*\([^)]*;|(\bfor\b.*){5}", re.S)   # five or more for-loops may be nested: 4 fields ^ depth iterations
 
 
 def run_dsl_case(ctx, case, prog, timeout):
